@@ -145,6 +145,39 @@ func init() {
 			}
 			fmt.Fprintf(w, "def %s : Bool := %v\n", it.def, before)
 		}
+		// 3a. adjustHelper: the read-only range limit check is called before the dimension step
+		w.WriteString("\n/-! adjust.go adjustHelper: checkAdjustRangeLimit is called before adjustRowDimensions/adjustColDimensions -/\n")
+		rcf := false
+		if fd := funcDecl("File", "adjustHelper"); fd == nil {
+			fail("func (*File) adjustHelper")
+		} else if funcDecl("File", "checkAdjustRangeLimit") == nil {
+			fail("func (*File) checkAdjustRangeLimit")
+		} else {
+			chk, dim := token.NoPos, token.NoPos
+			ast.Inspect(fd.Body, func(n ast.Node) bool {
+				if ce, ok := n.(*ast.CallExpr); ok {
+					if se, ok := ce.Fun.(*ast.SelectorExpr); ok {
+						switch se.Sel.Name {
+						case "checkAdjustRangeLimit":
+							if chk == token.NoPos {
+								chk = ce.Pos()
+							}
+						case "adjustRowDimensions", "adjustColDimensions":
+							if dim == token.NoPos {
+								dim = ce.Pos()
+							}
+						}
+					}
+				}
+				return true
+			})
+			if chk == token.NoPos || dim == token.NoPos {
+				fail("adjustHelper: call of checkAdjustRangeLimit / adjust*Dimensions not found")
+			}
+			rcf = chk != token.NoPos && dim != token.NoPos && chk < dim
+		}
+		fmt.Fprintf(w, "def rangeCheckFirst : Bool := %v\n", rcf)
+
 		// 3b. adjustTable: which coordinate is compared with the removed row (0 = x1, 1 = y1)
 		w.WriteString("\n/-! adjust.go adjustTable: index of the coordinate compared with the removed row (1 = y1, the header row) -/\n")
 		hdr := -1
@@ -172,7 +205,7 @@ func init() {
 			{"File", "adjustHelper"}, {"File", "adjustRowDimensions"}, {"File", "adjustColDimensions"},
 			{"File", "adjustCols"}, {"File", "adjustCellRef"}, {"File", "adjustMergeCells"},
 			{"File", "adjustMergeCellsHelper"}, {"File", "adjustAutoFilter"}, {"File", "adjustAutoFilterHelper"},
-			{"File", "adjustConditionalFormats"}, {"File", "adjustTable"},
+			{"File", "adjustConditionalFormats"}, {"File", "adjustTable"}, {"File", "checkAdjustRangeLimit"},
 		} {
 			fd := funcDecl(it.recv, it.fn)
 			if fd == nil {
